@@ -21,7 +21,7 @@ pub enum Pert {
 
 pub fn kzg10(max_degree: usize, len: usize, hiding: Option<usize>, pert: Pert, batch: bool, seed: u64) -> Verdict {
     let delta = sym_nonzero("delta");
-    let rng = &mut StdRng::seed_from_u64(seed + 5);
+    let rng = &mut StdRng::seed_from_u64((seed + 5) ^ crate::engine::explore::replay_salt());
     let pp = match K::setup(max_degree, false, rng) {
         Ok(p) => p,
         Err(e) => return Verdict::viol("setup-err", format!("{:?}", e)),
@@ -80,7 +80,7 @@ pub fn kzg10(max_degree: usize, len: usize, hiding: Option<usize>, pert: Pert, b
 
 pub fn mlpst(nv: usize, pert: Pert, seed: u64) -> Verdict {
     let delta = sym_nonzero("delta");
-    let rng = &mut StdRng::seed_from_u64(seed + 5);
+    let rng = &mut StdRng::seed_from_u64((seed + 5) ^ crate::engine::explore::replay_salt());
     let pp = MultilinearPC::<ToyPairing>::setup(nv, rng);
     let (ck, vk) = MultilinearPC::<ToyPairing>::trim(&pp, nv);
     let e: Vec<SF> = (0..1 << nv).map(|j| sym(&format!("e{}", j))).collect();
